@@ -27,7 +27,7 @@ Proof. intros H [A1 A3 A4 A5 A6 A7 A8 A9 A10 A11 A12 A13 A14 A15 A18 A19 A20].
 Definition is_bd (sc : scope) : Prop := sc_macro sc = R "Bd".
 Definition P (p : bool) (s : st) : Prop := Side s /\ Forall is_bd (sblock s) /\ process s = p /\ (p = true -> InvL s).
 Definition in_frag (b : block) : Prop :=
-  match b with BText _ _ => True | BMacro n a _ => n = R "Bm" \/ n = R "Em" \/ n = R "Sm" \/ n = R "P" \/ n = R "Bd" \/ n = R "Ed" end.
+  match b with BText _ _ => True | BMacro n a _ => n = R "Bm" \/ n = R "Em" \/ n = R "Sm" \/ n = R "P" \/ n = R "Bd" \/ n = R "Ed" \/ n = R "D" \/ n = R "Lk" end.
 
 Lemma top_app {A} (l : list A) x : top (l ++ [x]) = Some x.
 Proof. unfold top. rewrite map_app. cbn [map]. induction (map Some l) as [|a r IH]; [reflexivity|]. cbn [app]. destruct (r ++ [Some x]) eqn:E; [destruct r; discriminate|]. exact IH. Qed.
@@ -389,6 +389,126 @@ Proof. intros HP Hc. pose proof HP as (HS & Hsb & Hpr & HI). unfold macro_p. rew
     + rewrite (fmt_eqf _ _ Ff). exact (sd_fmt _ HS2).
 Qed.
 
+Lemma P_same p a b : a ~= b -> out a = out b -> view a = view b -> buf a = buf b -> P p b -> P p a.
+Proof. intros F Ho Hv Hb (HS & Hsb & Hpr & HI). split; [apply (Side_eqf _ _ F HS)|]. split; [rewrite (eqf_get sblock _ _ (fun _ => eq_refl) F); exact Hsb|].
+  split; [rewrite (eqf_get process _ _ (fun _ => eq_refl) F); exact Hpr|]. intro Hp. apply (InvL_regs b); [exact Ho|exact Hv|exact Hb|apply (eqf_get format _ _ (fun _ => eq_refl) F)|exact (HI Hp)]. Qed.
+
+(* ---------- D: a dialogue paragraph ---------- *)
+Lemma macro_d_P p s : P p s -> P p (macro_d s).
+Proof. intros HP. pose proof HP as (HS & Hsb & Hpr & HI). unfold macro_d. rewrite Hpr. destruct p; cbn [negb]; [|exact HP].
+  pose proof (parse_opts_eqd specOptNone (args s) s) as E1. destruct (parse_opts specOptNone (args s) s) as [o s1]. cbn [snd] in E1.
+  assert (E2 : useless o s1 ~~ s) by (unfold useless; destruct (po_args o); [exact E1|eapply eqd_trans; [apply err_eqd|exact E1]]).
+  pose proof (P_eqd _ _ _ E2 HP) as (HS2 & Hsb2 & Hpr2 & HI2). specialize (HI2 eq_refl).
+  set (s2 := useless o s1) in *. clearbody s2.
+  (* the paragraph in progress, if any, is ended *)
+  match goal with |- context [if par s2 then ?a else s2] => assert (H3 : exists s3, (if par s2 then a else s2) = s3 /\ InvL s3 /\ s3 ~= s2 /\
+      view s3 = (sblock s2, dtags s2, ttitscope s2, (false, false, sinline s2, mtags s2))) end.
+  { destruct (par s2) eqn:Ep.
+    - pose proof (InvL_p_break s2 HI2 (sd_mk _ HS2) (scope_verse_bd _ Hsb2)) as H. rewrite (sd_vs _ HS2) in H.
+      pose proof (p_break_eqf s2 (sd_fmt _ HS2) (sd_mk _ HS2)) as F. unfold p_break in H, F. rewrite Ep in H, F.
+      eexists. split; [reflexivity|]. split; [exact (proj1 H)|]. split; [exact F|exact (proj2 H)].
+    - exists s2. split; [reflexivity|]. split; [exact HI2|]. split; [apply eqf_refl|]. unfold view. rewrite Ep, (sd_vs _ HS2). reflexivity. }
+  destruct H3 as (s3 & -> & HI3 & F3 & Hv3).
+  pose proof (Side_eqf _ _ F3 HS2) as HS3.
+  assert (Hp3 : par s3 = false) by (exact (f_equal (fun v => fst (fst (fst (snd v)))) Hv3)).
+  unfold begin_paragraph. rewrite (sd_fmt _ HS3). unfold L.begin_paragraph.
+  set (sa := s3 <| par := true |>).
+  assert (Fa : sa ~= s3) by apply set_par_eqf.
+  unfold reopen_spanning.
+  destruct (reopen_foldL (mtags sa) (sinline sa) ltac:(rewrite (mtags_eqf _ _ Fa); exact (sd_mk _ HS3)) sa ltac:(rewrite (fmt_eqf _ _ Fa); exact (sd_fmt _ HS3)) eq_refl) as [c [Ec Hc]].
+  rewrite Ec. unfold begin_dialogue. rewrite fmt_wl, (fmt_eqf _ _ Fa), (sd_fmt _ HS3). unfold L.begin_dialogue.
+  assert (Hpa : params (wl c sa) = params s3) by (rewrite (eqf_get params _ _ (fun _ => eq_refl) (wl_eqf c sa)); apply (eqf_get params _ _ (fun _ => eq_refl) Fa)).
+  rewrite Hpa, (sd_pa _ HS3).
+  assert (Edm : assoc (R "dmark") [(R "lang", R "en")] = None) by reflexivity. rewrite Edm.
+  set (sf := w (R "---") (wl c sa)).
+  assert (Ff : sf ~= s3) by (unfold sf; eapply eqf_trans; [apply w_eqf|]; eapply eqf_trans; [apply wl_eqf|exact Fa]).
+  assert (Hvsf : verse sf = false) by (rewrite (eqf_get verse _ _ (fun _ => eq_refl) Ff); exact (sd_vs _ HS3)).
+  assert (F : sf <| ws := false |> <| verse := false |> ~= s3) by (eapply eqf_trans; [apply set_verse_eqf; exact Hvsf|]; eapply eqf_trans; [apply set_ws_eqf|exact Ff]).
+  split; [apply (Side_eqf _ _ F HS3)|]. split; [rewrite (eqf_get sblock _ _ (fun _ => eq_refl) F), (eqf_get sblock _ _ (fun _ => eq_refl) F3); exact Hsb2|].
+  split; [rewrite (eqf_get process _ _ (fun _ => eq_refl) F), (eqf_get process _ _ (fun _ => eq_refl) F3); exact Hpr2|]. intros _.
+  apply (InvL_regs sf); try reflexivity; [unfold view; cbn; rewrite Hvsf; reflexivity|].
+  assert (Hpsa : par sa = true) by reflexivity.
+  apply (InvL_step s3 _ (flat c ++ R "---") HI3).
+  - unfold sf. rewrite out_w by (rewrite par_wl, Hpsa; discriminate). rewrite out_wl by (rewrite Hpsa; discriminate).
+    change (out sa) with (out s3). rewrite <- app_assoc. reflexivity.
+  - unfold depthL, sf. rewrite view_w, view_wl, Hv3. unfold sa, view, depth_v. cbn [par sinline]. cbn.
+    rewrite runL_app, Hc. change (sinline sa) with (sinline s3).
+    assert (Esi : sinline s3 = sinline s2) by (exact (f_equal (fun v => snd (fst (snd v))) Hv3)). rewrite Esi, Nat.add_0_r. reflexivity.
+  - unfold sf. rewrite par_w, par_wl, Hpsa. discriminate.
+  - rewrite (fmt_eqf _ _ Ff). exact (sd_fmt _ HS3).
+Qed.
+
+(* ---------- Lk: a link, with or without a label ---------- *)
+Lemma latex_url_textual u : textualL (latex_url u).
+Proof. intro d. unfold latex_url. induction u as [|c r IH]; [reflexivity|]. cbn [flat_map]. rewrite runL_app.
+  assert (H1 : runL (latex_url1 c) (LTxt, d) = (LTxt, d)).
+  { unfold latex_url1. destruct (c =? 37) eqn:E1; [reflexivity|]. destruct (c =? 123) eqn:E2; [reflexivity|]. destruct (c =? 125) eqn:E3; [reflexivity|].
+    destruct (c =? 92) eqn:E4; [reflexivity|]. unfold runL. cbn [fold_left lstep]. rewrite E4, E2, E3. reflexivity. }
+  rewrite H1. exact IH. Qed.
+Lemma link_chunkL cmd u label punct : cmd = R "\href{" \/ cmd = R "\url{" -> textualL label -> textualL punct ->
+  textualL (cmd ++ latex_url u ++ R "}" ++ label ++ punct).
+Proof. intros Hc Hl Hp d. rewrite runL_app. assert (Hcmd : runL cmd (LTxt, d) = (LTxt, S d)) by (destruct Hc as [-> | ->]; reflexivity). rewrite Hcmd.
+  rewrite runL_app, latex_url_textual, runL_app. change (runL (R "}") (LTxt, S d)) with (LTxt, d). rewrite runL_app, Hl. apply Hp. Qed.
+
+Lemma macro_lk_P p s : P p s -> has_cur s = true -> P p (macro_lk pim s).
+Proof. intros HP Hc. pose proof HP as (HS & Hsb & Hpr & HI). unfold macro_lk. rewrite Hpr. destruct p; cbn [negb]; [|exact HP].
+  pose proof (parse_opts_eqd specOptLk (args s) s) as E1. destruct (parse_opts specOptLk (args s) s) as [o s1]. cbn [snd] in E1.
+  set (r2 := if Nat.ltb 1 (List.length (po_args o)) then get_close_punct (po_args o) s1 else (po_args o, [], s1)).
+  assert (H2 : snd r2 ~~ s1 /\ textualL (snd (fst r2))).
+  { unfold r2. destruct (Nat.ltb 1 (List.length (po_args o))); [|split; [reflexivity|apply textualL_nil]].
+    split; [apply get_close_punct_eqd|apply get_close_punct_textualL; rewrite (Inv.fmt_eqd _ _ E1); exact (sd_fmt _ HS)]. }
+  destruct r2 as [[a punct] s2]. cbn [fst snd] in H2. destruct H2 as [E2 Hpunct].
+  assert (E2' : s2 ~~ s) by (eapply eqd_trans; eauto).
+  pose proof (P_eqd _ _ _ E2' HP) as HP2.
+  destruct a as [|u rest]; [apply (P_eqd _ _ _ (err_eqd _ _) HP2)|].
+  pose proof HP2 as (HS2 & Hsb2 & Hpr2 & HI2). specialize (HI2 eq_refl).
+  assert (Hv2 : par s2 = false -> scope_verse s2 = false) by (intros _; apply scope_verse_bd; exact Hsb2).
+  destruct (InvL_begin_phrasing (flag "ns" o) s2 HI2 (sd_mk _ HS2) (sd_inl _ HS2) Hv2) as (HI3 & Hp3 & _).
+  pose proof (begin_phrasing_eqf (flag "ns" o) s2 (sd_fmt _ HS2) (sd_mk _ HS2)) as F3.
+  set (s3 := begin_phrasing (flag "ns" o) s2 <| ws := true |>).
+  assert (F3' : s3 ~= s2) by (eapply eqf_trans; [apply set_ws_eqf|exact F3]).
+  assert (HI3' : InvL s3) by (apply InvL_ws; exact HI3).
+  assert (Hp3' : par s3 = true) by exact Hp3.
+  clearbody s3.
+  pose proof (inlines_text_eqd u s3) as E4. destruct (inlines_text u s3) as [url s4]. cbn [snd] in E4.
+  assert (F4 : s4 ~= s2) by (eapply eqf_trans; [apply eqd_eqf; exact E4|exact F3']).
+  pose proof (InvL_eqd _ _ E4 HI3') as HI4.
+  assert (Hp4 : par s4 = true) by (rewrite (eqd_get par _ _ (fun _ => eq_refl) E4); exact Hp3').
+  pose proof (Side_eqf _ _ F4 HS2) as HS4.
+  (* what is written is neutral for the braces, whatever the url and the label *)
+  assert (Hlab : exists s5 k, (match rest with [] => lk_without_label url punct s4 | _ => let '(label, s5) := pim rest s4 in lk_with_label url label punct s5 end)
+                   = with_url url (fun n => w (k n)) s5 /\ (forall n, textualL (k n)) /\ s5 ~= s4 /\ out s5 = out s4 /\ view s5 = view s4 /\ buf s5 = buf s4).
+  { destruct rest as [|r0 rr].
+    - exists s4, (fun n => R "\url{" ++ latex_url n ++ R "}" ++ punct). split; [unfold lk_without_label; rewrite (sd_fmt _ HS4); reflexivity|].
+      split; [intro n; apply (link_chunkL (R "\url{") n [] punct (or_intror eq_refl) textualL_nil Hpunct)|]. repeat split; apply eqf_refl.
+    - assert (Hc4 : has_cur s4 = true).
+      { rewrite (eqf_get has_cur _ _ (fun _ => eq_refl) F4), (eqd_get has_cur _ _ (fun _ => eq_refl) E2'). exact Hc. }
+      destruct (pim_spec (r0 :: rr) s4 (sd_fmt _ HS4) (sd_asis _ HS4) (sd_inl _ HS4) (sd_mk _ HS4) (sd_bf _ HS4) Hc4) as (Ht & F5 & Ho5 & Hv5 & Hb5).
+      destruct (pim (r0 :: rr) s4) as [label s5]. cbn [fst snd] in *.
+      exists s5, (fun n => R "\href{" ++ latex_url n ++ R "}{" ++ latex_escape label ++ R "}" ++ punct).
+      split; [unfold lk_with_label; rewrite (fmt_eqf _ _ F5), (sd_fmt _ HS4); reflexivity|].
+      split; [|repeat split; assumption]. intro n.
+      replace (R "\href{" ++ latex_url n ++ R "}{" ++ latex_escape label ++ R "}" ++ punct) with (R "\href{" ++ latex_url n ++ R "}" ++ (R "{" ++ latex_escape label ++ R "}") ++ punct)
+        by (rewrite <- !app_assoc; reflexivity).
+      apply (link_chunkL (R "\href{") n _ punct (or_introl eq_refl)); [|exact Hpunct].
+      intro d. rewrite runL_app. change (runL (R "{") (LTxt, d)) with (LTxt, S d). rewrite runL_app, latex_escape_textual. reflexivity. }
+  destruct Hlab as (s5 & k & -> & Hk & F5 & Ho5 & Hv5 & Hb5).
+  assert (HP5 : P true s5) by (apply (P_same true s5 s4 F5 Ho5 Hv5 Hb5); split; [exact HS4|split; [rewrite (eqf_get sblock _ _ (fun _ => eq_refl) F4); exact Hsb2|split; [rewrite (eqf_get process _ _ (fun _ => eq_refl) F4); exact Hpr2|intros _; exact HI4]]]).
+  assert (Hp5 : par s5 = true) by (rewrite <- Hp4; exact (f_equal (fun v => fst (fst (fst (snd v)))) Hv5)).
+  unfold with_url.
+  assert (Hfin : forall n sx, sx ~~ s5 -> P true (w (k n) sx)).
+  { intros n sx Ex. pose proof (P_eqd _ _ _ Ex HP5) as (HSx & Hsbx & Hprx & HIx). specialize (HIx eq_refl).
+    assert (Hpx : par sx = true) by (rewrite (eqd_get par _ _ (fun _ => eq_refl) Ex); exact Hp5).
+    split; [apply (Side_eqf _ _ (w_eqf (k n) sx) HSx)|]. split; [rewrite (eqf_get sblock _ _ (fun _ => eq_refl) (w_eqf (k n) sx)); exact Hsbx|].
+    split; [rewrite (eqf_get process _ _ (fun _ => eq_refl) (w_eqf (k n) sx)); exact Hprx|]. intros _.
+    apply (InvL_step sx _ (k n) HIx).
+    - apply out_w. rewrite Hpx. discriminate.
+    - unfold depthL. rewrite view_w. apply (Hk n).
+    - rewrite par_w, Hpx. discriminate.
+    - rewrite Inv.fmt_w. exact (sd_fmt _ HSx). }
+  destruct (url_norm s5 url) as [n|]; [apply Hfin; reflexivity|apply Hfin; apply err_eqd].
+Qed.
+
 Lemma Side_set_regs b s : Side s -> Side (set_regs b s).
 Proof. intros [A1 A3 A4 A5 A6 A7 A8 A9 A10 A11 A12 A13 A14 A15 A18 A19 A20]. destruct b; split; assumption. Qed.
 Lemma P_set_regs p b s : P p s -> P p (set_regs b s) /\ has_cur (set_regs b s) = true.
@@ -414,7 +534,7 @@ Proof. intros Hb HP. unfold step. cbv zeta.
   destruct b as [n a l|t l].
   - rewrite A3, A7. cbn [assoc].
     assert (Ebf : bf_check n s0 = s0) by (unfold bf_check; rewrite A8; reflexivity).
-    destruct Hb as [-> | [-> | [-> | [-> | [-> | ->]]]]].
+    destruct Hb as [-> | [-> | [-> | [-> | [-> | [-> | [-> | ->]]]]]]].
     + change (control_builtin pb (R "Bm")) with (@None (cst -> cst)). change (builtin (R "Bm")) with (Some macro_bm). cbn [snd]. rewrite Ebf.
       pose proof (macro_bm_eqf s0 A11 A1 Hc0) as F1.
       assert (F : after_handler (R "Bm") (macro_bm s0) ~= s0) by (eapply eqf_trans; [apply after_handler_eqf|exact F1]).
@@ -439,6 +559,10 @@ Proof. intros Hb HP. unfold step. cbv zeta.
       apply P_after_handler, macro_bd_P; [exact HP0|exact Hc0].
     + change (control_builtin pb (R "Ed")) with (@None (cst -> cst)). change (builtin (R "Ed")) with (Some macro_ed). cbn [snd]. rewrite Ebf.
       apply P_after_handler, macro_ed_P. exact HP0.
+    + change (control_builtin pb (R "D")) with (@None (cst -> cst)). change (builtin (R "D")) with (Some macro_d). cbn [snd]. rewrite Ebf.
+      apply P_after_handler, macro_d_P. exact HP0.
+    + change (control_builtin pb (R "Lk")) with (@None (cst -> cst)). change (builtin (R "Lk")) with (Some (macro_lk pim)). cbn [snd]. rewrite Ebf.
+      apply P_after_handler, macro_lk_P; [exact HP0|exact Hc0].
   - cbn [snd]. unfold text_block.
     pose proof (process_text_eqf s0 A4 A11 A1) as F1.
     assert (Ebf : bf (process_text s0) = None) by (rewrite (eqf_get bf _ _ (fun _ => eq_refl) F1); exact A8). rewrite Ebf.
@@ -453,9 +577,6 @@ Proof. intros f bs cs Hbs. cbn [run_blocks]. revert cs. induction Hbs as [|b res
   cbn [walk]. destruct cs as [c s]. pose proof (step_frag (run_blocks f) p b c s Hb HP) as H1.
   destruct (panicked (snd (step (run_blocks f) b (c, s)))); [exact H1|]. apply IHb. exact H1. Qed.
 
-Lemma P_same p a b : a ~= b -> out a = out b -> view a = view b -> buf a = buf b -> P p b -> P p a.
-Proof. intros F Ho Hv Hb (HS & Hsb & Hpr & HI). split; [apply (Side_eqf _ _ F HS)|]. split; [rewrite (eqf_get sblock _ _ (fun _ => eq_refl) F); exact Hsb|].
-  split; [rewrite (eqf_get process _ _ (fun _ => eq_refl) F); exact Hpr|]. intro Hp. apply (InvL_regs b); [exact Ho|exact Hv|exact Hb|apply (eqf_get format _ _ (fun _ => eq_refl) F)|exact (HI Hp)]. Qed.
 
 Lemma close_block_loop_P cur : forall f s, P true s -> (List.length (sblock s) <= f)%nat ->
   P true (close_block_loop f cur s) /\ (par s = false -> par (close_block_loop f cur s) = false) /\
